@@ -115,6 +115,9 @@ func (w *World) fieldAccesses(pkg, name string, fields []string) []access {
 		if f.Origin() != nil {
 			continue
 		}
+		if helperFor(f) != nil {
+			continue // a transparent helper is visited as part of each of its callers (adopt.go)
+		}
 		Instrs(f, func(in ssa.Instruction) {
 			fa, ok := in.(*ssa.FieldAddr)
 			if !ok {
@@ -200,6 +203,21 @@ func isFreshBase(v ssa.Value) bool {
 	switch x := peel(v).(type) {
 	case *ssa.Alloc:
 		return true
+	case *ssa.Parameter:
+		// parameter of a transparent helper: fresh when every call passes a fresh object
+		if h := helperFor(x.Parent()); h != nil && len(h.sites) > 0 {
+			for i, q := range x.Parent().Params {
+				if q != x {
+					continue
+				}
+				for _, s := range h.sites {
+					if i >= len(s.Common().Args) || !isFreshBase(s.Common().Args[i]) {
+						return false
+					}
+				}
+				return true
+			}
+		}
 	case *ssa.UnOp:
 		// load of a local that holds a fresh allocation
 		if a, ok := x.X.(*ssa.Alloc); ok {
@@ -375,6 +393,44 @@ func litField(v ssa.Value, field string) ssa.Value {
 		for _, u := range *fa.Referrers() {
 			if st, ok := u.(*ssa.Store); ok && st.Addr == fa {
 				out = st.Val
+			}
+		}
+	}
+	if out == nil && len(helpers) > 0 {
+		// the object is handed to a transparent helper that sets the field (adopt.go): the
+		// value stored there, a parameter of the helper being the argument of this call
+		for _, rr := range *a.Referrers() {
+			c, ok := rr.(ssa.CallInstruction)
+			if !ok {
+				continue
+			}
+			h := helperCall(c)
+			if h == nil {
+				continue
+			}
+			for i, arg := range c.Common().Args {
+				if arg != ssa.Value(a) || i >= len(h.fn.Params) {
+					continue
+				}
+				p := h.fn.Params[i]
+				for _, pr := range *p.Referrers() {
+					fa, ok := pr.(*ssa.FieldAddr)
+					if !ok || fieldName(fa.X.Type(), fa.Field) != field || fa.Referrers() == nil {
+						continue
+					}
+					for _, u := range *fa.Referrers() {
+						if st, ok := u.(*ssa.Store); ok && st.Addr == fa {
+							out = st.Val
+							if q, isP := st.Val.(*ssa.Parameter); isP {
+								for j, hp := range h.fn.Params {
+									if hp == q && j < len(c.Common().Args) {
+										out = c.Common().Args[j]
+									}
+								}
+							}
+						}
+					}
+				}
 			}
 		}
 	}
